@@ -30,6 +30,9 @@ def sha(s):
     return hashlib.sha256(s).hexdigest()[:16]
 
 
+LAST_COV = [0, 0]   # (guards, guards hit) of the most covering driver process since the last reset
+
+
 def exec_runs(drv, runs, scratch, timeout=300):
     """
     runs: [(rid, [lines])].  Executes them in as few driver processes as possible; a
@@ -56,6 +59,9 @@ def exec_runs(drv, runs, scratch, timeout=300):
             err = "HARNESS-TIMEOUT"
             rc = -9
         runs_p, order, cov = trace.parse(out)
+        if cov:
+            LAST_COV[0] = max(LAST_COV[0], cov[0])
+            LAST_COV[1] = max(LAST_COV[1], cov[1])
         crashed = None
         for k, (rid, lines) in enumerate(pending):
             r = runs_p.get(rid)
@@ -181,6 +187,7 @@ def _simulate_built(unit, P, root, uidx, comp, drv, scratch, res):
             runsA.append((rid, lines))
             keyA[rid] = (xi, fill, lines)
             rid += 1
+    LAST_COV[0] = LAST_COV[1] = 0
     outA = exec_runs(drv, runsA, scratch)
     canons = {}
     cut_states = set()
@@ -201,10 +208,14 @@ def _simulate_built(unit, P, root, uidx, comp, drv, scratch, res):
             annotate_full(f, meta)
             _add(res, f, ctx, "canonical")
         cn = oracles.Canon(run, len(xs[xi]), caps.indirect, caps.has_end)
-        for f in cn.findings:
-            _add(res, f, ctx, "canonical")
         lf, pr = oracles.law_check(calls, ops, flags, True)
-        for f in lf:
+        seen_p1 = set()
+        for f in cn.findings + lf:
+            annotate_stall(f, calls, meta, xs[xi])
+            k = (f["oracle"], f["kind"], f["op"])
+            if f["oracle"] == "P1" and k in seen_p1:
+                continue        # Canon and the laws report the same call
+            seen_p1.add(k)
             _add(res, f, ctx, "canonical")
         for f in oracles.end_law_check(calls):
             _add(res, f, ctx, "canonical")
@@ -312,6 +323,7 @@ def _simulate_built(unit, P, root, uidx, comp, drv, scratch, res):
                 _merge_probes(stats, pr)
             lf, pr = oracles.law_check(calls, ops, flags)
             for f in lf:
+                annotate_stall(f, calls, meta, xs[xi])
                 _add(res, f, ctx, "scheduled")
             _merge_probes(stats, pr)
             for f in oracles.end_law_check(calls):
@@ -331,6 +343,9 @@ def _simulate_built(unit, P, root, uidx, comp, drv, scratch, res):
                                    "script": oplines[:14], "trace": [c.brief() for c in run.calls[:10]]})
     stats["states_cut"] = len(cut_states)
     stats["states_seen"] = len(all_states)
+    stats["guards_total"] = LAST_COV[0]
+    stats["guards_hit"] = LAST_COV[1]
+    stats["bytes_fed"] = sum(len(x) for x in xs) * (1 + len(keyB) // max(1, len(xs)))
 
 
 def _account(stats, run):
@@ -348,6 +363,32 @@ def _merge_probes(stats, pr):
     for k, v in pr.items():
         if isinstance(v, int):
             stats[k] = stats.get(k, 0) + v
+
+
+def annotate_stall(f, calls, meta, data):
+    """
+    For 'OK before the chunk end' findings: is the machine resting in a state that has no
+    transition (and no else) for the byte in flight?  (call-site identification of the recorded
+    C10 finding: non-total machine state)
+    """
+    if f["oracle"] != "P1" or "before-chunk-end" not in f["kind"] or not meta.get("dfa"):
+        return
+    c = None
+    for x in calls:
+        if x.op == f["op"] and x.cls() == "OK" and x.kind in ("FEED", "REFEED", "REFEED1"):
+            c = x
+    if c is None or c.pos < 0 or c.pos >= len(data):
+        return
+    states = meta["dfa"]["states"]
+    if c.state >= len(states):
+        return
+    st = states[c.state]
+    b = data[c.pos]
+    if st["cp"]:
+        return
+    hit = any((b in t["on"]) or ("L" in t["on"]) for t in st["tr"])
+    if not hit:
+        f["detail"] += " stall=nontotal-state(%d has no transition for byte %02x and no else)" % (c.state, b)
 
 
 def annotate_full(f, meta):
@@ -421,10 +462,9 @@ def evaluate_script(unit, comp, drv, scratch, ins, lines, fill=0, want=("L2", "L
             annotate_full(f, meta)
             _add(res, f, ctx, "canonical")
         cn = oracles.Canon(run, len(ins[sid]), caps.indirect, caps.has_end)
-        for f in cn.findings:
-            _add(res, f, ctx, "canonical")
         lf, _ = oracles.law_check(run.session(0), ops, flags, True)
-        for f in lf + oracles.end_law_check(run.session(0)):
+        for f in cn.findings + lf + oracles.end_law_check(run.session(0)):
+            annotate_stall(f, run.session(0), meta, ins[sid])
             _add(res, f, ctx, "canonical")
         if cn.ok:
             canons[sid] = cn
@@ -450,5 +490,6 @@ def evaluate_script(unit, comp, drv, scratch, ins, lines, fill=0, want=("L2", "L
                 _add(res, f, ctx, "scheduled")
         lf, _ = oracles.law_check(calls, ops, flags)
         for f in lf + oracles.end_law_check(calls):
+            annotate_stall(f, calls, meta, ins[sid])
             _add(res, f, ctx, "scheduled")
     return res["findings"], False
